@@ -55,7 +55,9 @@ LEVEL = 'exploration'
 RULE = ('Hypothesis-generated configuration programs: client files built '
         'from Host/Match blocks (negation, 1-3 criteria, all/host/'
         'originalhost/user/localuser/tagged/exec/canonical/final), option '
-        'lines in five spellings with optional quoting and case, list/append '
+        'lines in seven spellings ("K V", "K=V", "K = V", "K =V", "K= V", '
+        'tab, two blanks) with optional quoting, case and indentation, '
+        'list/append '
         'options, Include trees (relative, ~/, absolute, globs matching 0..4 '
         'files, 2 deep, inside blocks), tokens and ${VAR}; targets (host, '
         'user/port preset or not, canonical pass); server files with Match '
@@ -83,6 +85,21 @@ ASSUMPTIONS = [
     'RekeyLimit (printed numerically), Hostname directives together with '
     'Match final (on its final pass ssh matches Host against the rewritten '
     'name), "none" values, invalid lines',
+    'Host lines carry whitespace-separated patterns only (ssh_config(5); '
+    'OpenSSH takes a comma in a Host argument literally, asyncssh as a '
+    'separator - outside the grammar); ProxyJump is never quoted; one '
+    'SetEnv value per variable name; in client-sshG a file does not mix '
+    'the flag and the path form of ForwardAgent (two fields in ssh), '
+    'Compression takes only yes/no, CanonicalizeMaxDots/'
+    'CanonicalizeFallbackLocal are excluded (ssh fills their defaults '
+    'before the final pass)',
+    'lists built by accumulation (IdentityFile, CertificateFile, SendEnv) '
+    'are compared as the sequence of distinct values: OpenSSH drops exact '
+    'duplicates of the first two and a repeated SendEnv pattern means '
+    'nothing',
+    'an invalid line inside a block that does not apply may be rejected '
+    '(OpenSSH) or skipped (asyncssh): both accepted; an invalid line that '
+    'applies must raise ConfigParseError',
     'Match final appears only in top-level files so that '
     'has_match_final() after the first pass is exact',
     'originalhost and %n are not generated together with a canonical pass '
@@ -754,8 +771,6 @@ class ClientModel(Model):
 
                 if 'second-pass-restarts' in self.flags:
                     opts = dict(presets)
-                elif 'expand-per-parse' not in self.flags:
-                    pass
 
                 self.run_pass(opts, canon or t['host'], bool(canon),
                               self.want_final)
@@ -1340,10 +1355,7 @@ def run_server_model(case) -> CaseResult:
             labels |= model.labels
             nontrivial = model.nontrivial()
             unsafe = documented_unsafe(user)
-            templates = [t for t in getattr(model, 'raw_akf', [])]
-            substituted = any(template_dir(t) != t[:t.rfind('/') + 1] or
-                              '%u' in t.replace('%%', '')
-                              for t in templates)
+            templates = list(getattr(model, 'raw_akf', []))
             uses_u = any('%u' in t.replace('%%', '') for t in templates)
 
             if unsafe:
@@ -1354,8 +1366,6 @@ def run_server_model(case) -> CaseResult:
                 labels.add('template-uses-%u')
                 if has_meta(user):
                     nontrivial = True
-
-            del substituted
 
             if got[0] == 'illegal':
                 labels.add('illegal-user-raised')
@@ -1540,8 +1550,8 @@ def _value(draw, name: str, sshg: bool, canon_changes: bool,
     if kind == 'append':
         return [strip_n(_tokval(draw, sshg, rare_bad=not sshg))]
     if name == 'SetEnv':
-        pool = ['A=1', 'B=two', 'LANG=C', 'X=a=b'] + \
-            (['C=x y'] if True else [])
+        # one value per variable: ssh lets a later NAME= replace an earlier
+        pool = ['A=1', 'B=two', 'LANG=C', 'X=a=b', 'C=x y']
         return draw(st.lists(s(pool), min_size=1, max_size=3,
                              unique_by=lambda v: v.split('=')[0]))
     if name == 'SendEnv':
@@ -2115,7 +2125,7 @@ def e2e_case(draw, tier: str):
 FAMILIES = [
     Family('client-model', run_client_model,
            strategy=lambda tier: client_case(tier, False),
-           budget={'quick': 2400, 'thorough': 60000},
+           budget={'quick': 2400, 'thorough': 40000},
            required={'all': ['contested-option', 'include-in-block',
                              'token-in-value', 'env-in-value',
                              'literal-percent', 'include-depth2',
@@ -2128,21 +2138,21 @@ FAMILIES = [
            shards={'quick': 8, 'thorough': 16}),
     Family('client-sshG', run_client_sshg,
            strategy=lambda tier: client_case(tier, True),
-           budget={'quick': 480, 'thorough': 6000},
+           budget={'quick': 480, 'thorough': 4000},
            required={'all': ['ssh-agrees', 'contested-option',
                              'include-in-block', 'token-in-value',
                              'final-pass', 'glob-multi',
                              'list-accumulates']},
            shards={'quick': 4, 'thorough': 16}),
     Family('server-model', run_server_model, strategy=server_case,
-           budget={'quick': 1600, 'thorough': 30000},
+           budget={'quick': 1600, 'thorough': 20000},
            required={'all': ['unsafe-name', 'illegal-user-raised',
                              '%u-substituted', 'saslprep-changes-name',
                              'template-uses-%u', 'metachar-name',
                              'match-negated', 'include-file']},
            shards={'quick': 6, 'thorough': 16}),
     Family('server-e2e', run_server_e2e, strategy=e2e_case,
-           budget={'quick': 160, 'thorough': 2000},
+           budget={'quick': 160, 'thorough': 1500},
            required={'all': ['attacker', 'legit-login', 'unsafe-name']},
            shards={'quick': 2, 'thorough': 8}, case_timeout=120),
 ]
